@@ -1314,6 +1314,14 @@ fn main() {
     }
     seed_cases.sort();
     seed_cases.dedup();
+    // cases whose in-process recompile already differed go first (at most 3), so that the owned-seed
+    // confirmation of that class does not depend on the time budget
+    let flagged: Vec<usize> = (0..cases.len())
+        .filter(|&i| cases[i].is_variable() && outs[i].viol.iter().any(|(k, _)| k == "output-depends-on-hash-order"))
+        .take(3)
+        .collect();
+    seed_cases.retain(|i| !flagged.contains(i));
+    seed_cases.splice(0..0, flagged.iter().copied());
     let budget_s = tier.pick(35.0, 600.0);
     let t0 = std::time::Instant::now();
     let seed_outs = vcore::par_for(seed_cases.len(), threads, |k| {
